@@ -5,75 +5,75 @@ import (
 	"math/big"
 	"time"
 
+	"github.com/lianxiangcloud/linkchain/libs/common"
+	"github.com/lianxiangcloud/linkchain/types"
 	"verif/h/internal/chainkit"
+	"verif/h/internal/rng"
 	_ "verif/shim/goshim"
 )
 
+func must(err error) {
+	if err != nil {
+		panic(err)
+	}
+}
+
 func main() {
-	t0 := time.Now()
 	g, err := chainkit.BuildGenesis(chainkit.GenesisOpts{Seed: 1, NumAccounts: 4, Powers: []int64{10, 10, 10, 10}})
-	if err != nil {
-		panic(err)
-	}
-	fmt.Println("genesis", time.Since(t0))
-	t0 = time.Now()
+	must(err)
 	a, err := g.NewNode(chainkit.NodeOpts{})
-	if err != nil {
-		panic(err)
-	}
+	must(err)
 	b, err := g.NewNode(chainkit.NodeOpts{})
-	if err != nil {
-		panic(err)
-	}
-	fmt.Println("nodes", time.Since(t0), "vals", a.Status.Validators.Size())
-	var lastCommit = (*chainkitCommit)(nil)
-	_ = lastCommit
-	var lc = a.App.LoadSeenCommit(0)
-	_ = lc
-	var commit = (interface{})(nil)
-	_ = commit
-	nonce := uint64(0)
-	var last = (*struct{})(nil)
-	_ = last
-	var c = (*commitT)(nil)
-	_ = c
-	var prev = (*cT)(nil)
-	_ = prev
-	var lastC = (interface{})(nil)
-	_ = lastC
-	run(g, a, b, &nonce)
-}
-
-type chainkitCommit struct{}
-type commitT struct{}
-type cT struct{}
-
-func run(g *chainkit.Genesis, a, b *chainkit.Node, nonce *uint64) {
-	var lc = (*typesCommit)(nil)
-	_ = lc
-	t0 := time.Now()
-	var commit = (interface{})(nil)
-	_ = commit
+	must(err)
+	r := rng.New(7)
+	ws := []*chainkit.UWallet{chainkit.NewUWallet(1, 0, 2), chainkit.NewUWallet(1, 1, 2)}
+	led := chainkit.NewLedger(ws)
 	lastCommit := chainkit.NilCommit()
-	for h := 1; h <= 5; h++ {
-		for i := 0; i < 3; i++ {
-			tx, err := chainkit.NewTransfer(g.Accounts[0], *nonce, g.Accounts[1].Addr, big.NewInt(1e18))
-			if err != nil {
-				panic(err)
-			}
-			*nonce++
-			if err := a.Mempool.AddTx("", tx); err != nil {
-				fmt.Println("addtx err", err)
-			}
-		}
+	step := func() {
 		blk, c, err := a.Step(g, lastCommit, b)
-		if err != nil {
-			panic(err)
-		}
+		must(err)
 		lastCommit = c
-		fmt.Println("height", blk.Height, "txs", blk.NumTxs, "state", blk.StateHash.String()[:10], "balB", b.App.GetBalance(g.Accounts[1].Addr), "found", a.App.GetBalance(chainkit.FoundationAddr()))
+		led.ScanBlock(blk)
+		fmt.Println("height", blk.Height, "txs", blk.NumTxs, "hidden", led.HiddenValue(common.EmptyAddress), "unknown", led.Unknown)
 	}
-	fmt.Println("5 blocks", time.Since(t0))
+	_ = time.Now
+	e18, _ := new(big.Int).SetString("100000000000000000000", 10)
+	// A -> U : 3 outputs to wallet 0 (main + sub 1) and wallet 1
+	for i := 0; i < 6; i++ {
+		dests := []types.DestEntry{chainkit.Dest(ws[0], 0, e18), chainkit.Dest(ws[0], 1, new(big.Int).Mul(e18, big.NewInt(2))), chainkit.Dest(ws[1], 2, e18)}
+		fee := chainkit.UtxoFeeAinToU(new(big.Int).Mul(e18, big.NewInt(4)))
+		tx, err := chainkit.NewAinTx(g.Accounts[0], uint64(i), dests, fee)
+		must(err)
+		if err := a.Mempool.AddTx("", tx); err != nil {
+			fmt.Println("addtx A->U err", err)
+		}
+	}
+	step()
+	// U -> U ring size 1 and ring size 5
+	for _, rs := range []int{1, 5} {
+		sp := led.Spendable(ws[0], common.EmptyAddress)
+		in := sp[0]
+		in.Pending = true
+		fee := chainkit.UtxoFeeUinToU(a.App.GetUTXOGas())
+		out := new(big.Int).Sub(in.Amount, fee)
+		tx, err := led.NewUinTx(r, ws[0], []*chainkit.OwnedOut{in}, rs, []types.DestEntry{chainkit.Dest(ws[1], 0, out)})
+		must(err)
+		if err := a.Mempool.AddTx("", tx); err != nil {
+			fmt.Println("addtx U->U err", err, "ring", rs)
+		}
+	}
+	step()
+	// U -> A
+	sp := led.Spendable(ws[1], common.EmptyAddress)
+	in := sp[0]
+	fee := chainkit.UtxoFeeUinToA(in.Amount)
+	out := new(big.Int).Sub(in.Amount, fee)
+	tx, err := led.NewUinTx(r, ws[1], []*chainkit.OwnedOut{in}, 3, []types.DestEntry{&types.AccountDestEntry{To: g.Accounts[2].Addr, Amount: out}})
+	must(err)
+	if err := a.Mempool.AddTx("", tx); err != nil {
+		fmt.Println("addtx U->A err", err)
+	}
+	before := a.App.GetBalance(g.Accounts[2].Addr)
+	step()
+	fmt.Println("acct2 delta", new(big.Int).Sub(a.App.GetBalance(g.Accounts[2].Addr), before), "expected", out)
 }
-
-type typesCommit struct{}
